@@ -98,6 +98,11 @@ class KGFnWrapper:
                 return sym
         return None
 
+    def _to_klong_arg(self, x):
+        # A Python list is a Klong list: convert it the way the interpreter builds its own
+        # lists, so that ragged / mixed lists become object arrays instead of raising.
+        return self.klong._backend.kg_asarray(x) if isinstance(x, list) else x
+
     def __call__(self, *args, **kwargs):
         # Try to resolve dynamically first if we have a symbol
         if self._sym is not None:
@@ -107,7 +112,7 @@ class KGFnWrapper:
                     # Use the current definition
                     if len(args) != current.arity:
                         raise RuntimeError(f"Klong function called with {len(args)} but expected {current.arity}")
-                    fn_args = [np.asarray(x) if isinstance(x, list) else x for x in args]
+                    fn_args = [self._to_klong_arg(x) for x in args]
                     return self.klong.call(KGCall(current.a, [*fn_args], current.arity))
             except KeyError:
                 # Symbol was deleted, fall through to original function
@@ -115,7 +120,7 @@ class KGFnWrapper:
 
         if len(args) != self.fn.arity:
             raise RuntimeError(f"Klong function called with {len(args)} but expected {self.fn.arity}")
-        fn_args = [np.asarray(x) if isinstance(x, list) else x for x in args]
+        fn_args = [self._to_klong_arg(x) for x in args]
         return self.klong.call(KGCall(self.fn.a, [*fn_args], self.fn.arity))
 
 
